@@ -8,11 +8,14 @@ import os
 import subprocess
 import sys
 import sysconfig
+import threading
+import uuid
 
 from .common import REPO, VERIF, MachineryError
 
 SRC = ["mlw_encode.c", "mlw_decode.c", "mlw_codecmodule.c"]
 CACHE = os.path.join(VERIF, ".cache", "codec")
+_LOCK = threading.Lock()
 
 
 def _hash(flags):
@@ -38,13 +41,16 @@ def build(sanitize=False):
     out = os.path.join(CACHE, key, "mlw_codec" + (".asan" if sanitize else "") + ".so")
     if os.path.exists(out):
         return out
-    os.makedirs(os.path.dirname(out), exist_ok=True)
-    srcs = [os.path.join(REPO, "ethosu", "mlw_codec", s) for s in SRC]
-    tmp = out + ".tmp%d" % os.getpid()
-    p = subprocess.run(flags + srcs + ["-o", tmp], capture_output=True, text=True)
-    if p.returncode != 0:
-        raise MachineryError("mlw_codec does not build from the working tree:\n" + p.stderr[-3000:])
-    os.replace(tmp, out)
+    with _LOCK:
+        if os.path.exists(out):
+            return out
+        os.makedirs(os.path.dirname(out), exist_ok=True)
+        srcs = [os.path.join(REPO, "ethosu", "mlw_codec", s) for s in SRC]
+        tmp = out + ".tmp%d-%s" % (os.getpid(), uuid.uuid4().hex[:8])
+        p = subprocess.run(flags + srcs + ["-o", tmp], capture_output=True, text=True)
+        if p.returncode != 0:
+            raise MachineryError("mlw_codec does not build from the working tree:\n" + p.stderr[-3000:])
+        os.replace(tmp, out)
     return out
 
 
@@ -79,7 +85,10 @@ def shim_dir():
         "    sys.modules['ethosu.mlw_codec'] = _m; ethosu.mlw_codec = _m\n"
         "except Exception as e:\n"
         "    sys.stderr.write('verif shim: %%r\\n' %% (e,))\n" % (REPO, so, so))
-    if not os.path.exists(sc) or open(sc).read() != body:
-        with open(sc, "w") as f:
-            f.write(body)
+    with _LOCK:
+        if not os.path.exists(sc) or open(sc).read() != body:
+            tmp = sc + ".tmp%d-%s" % (os.getpid(), uuid.uuid4().hex[:8])
+            with open(tmp, "w") as f:
+                f.write(body)
+            os.replace(tmp, sc)
     return d
